@@ -146,12 +146,34 @@ Proof.
     rewrite app_nil_r, rev_involutive. f_equal. apply IH. exact Hr.
 Qed.
 
+Lemma clean_step_clean : forall acc c, clean_comp c = true -> clean_step acc c = acc ++ [c].
+Proof.
+  intros acc c H. unfold clean_step. unfold clean_comp in H.
+  repeat (apply andb_prop in H; destruct H as [H ?]).
+  repeat match goal with X : negb _ = true |- _ => apply negb_true_iff in X end.
+  match goal with X : bytes_eqb c [] = false |- _ => rewrite X end.
+  match goal with X : is_dot c = false |- _ => rewrite X end.
+  match goal with X : is_dotdot c = false |- _ => rewrite X end.
+  reflexivity.
+Qed.
+
+Lemma fold_clean_step_clean : forall p acc,
+  forallb clean_comp p = true -> fold_left clean_step p acc = acc ++ p.
+Proof.
+  induction p as [|c p IH]; intros acc H; cbn [fold_left].
+  - rewrite app_nil_r. reflexivity.
+  - cbn [forallb] in H. apply andb_prop in H. destruct H as [Hc Hp].
+    rewrite clean_step_clean by exact Hc. rewrite IH by exact Hp.
+    rewrite <- app_assoc. reflexivity.
+Qed.
+
 Lemma parse_render : forall p, p <> [] -> clean_path p -> parse_abs (render p) = Some p.
 Proof.
   intros [|c p] Hne H; [contradiction|].
   change (render (c :: p)) with (c_slash :: c ++ render p).
-  unfold parse_abs. rewrite beq_refl. rewrite split_render by exact H.
-  unfold clean_path in H. rewrite H. reflexivity.
+  unfold parse_abs, clean_join. rewrite beq_refl. rewrite split_render by exact H.
+  unfold clean_path in H. rewrite fold_clean_step_clean by exact H.
+  cbn [app]. rewrite H. reflexivity.
 Qed.
 
 Lemma render_nonempty : forall p, p <> [] -> exists b r, render p = b :: r.
